@@ -643,19 +643,15 @@ func (c *C05Scn) lifecycle(y func(), pr *c05Probe) (outs []string, viol *Violati
 		pr.indexHomed++
 		if si := homeOf(inst); si != nil && holds >= 0 {
 			// the index is read through before the history starts
-			for _, qb := range c.Queries[holds] {
-				func() {
-					defer func() {
-						if r := recover(); r != nil {
-							if a, ok := r.(abortUnit); ok {
-								panic(a)
-							}
-						}
+			capCall(2_000_000, func() {
+				for _, qb := range c.Queries[holds] {
+					func() {
+						defer func() { recover() }()
+						si.Get(string(qb))
+						si.RangeGet(string(qb))
 					}()
-					si.Get(string(qb))
-					si.RangeGet(string(qb))
-				}()
-			}
+				}
+			})
 		}
 	}
 	yield()
